@@ -113,6 +113,8 @@ pub struct Failure {
     pub width: usize,
     pub wmax: usize,
     pub nwidths: usize,
+    /// every width at which this failure was observed
+    pub widths: Vec<usize>,
     pub range: Option<(Option<usize>, Option<usize>)>,
     pub detail: String,
     pub output: String,
@@ -488,6 +490,7 @@ fn record(
     if let Some(idx) = seen.get(&k) {
         fails[*idx].nwidths += 1;
         fails[*idx].wmax = fails[*idx].wmax.max(width);
+        fails[*idx].widths.push(width);
         return;
     }
     seen.insert(k, fails.len());
@@ -499,6 +502,7 @@ fn record(
         width,
         wmax: width,
         nwidths: 1,
+        widths: vec![width],
         range,
         detail,
         output: output.chars().take(600).collect(),
@@ -649,6 +653,7 @@ pub fn run_task(plan: &Plan, case: &Case, cfg: &Cfg, st: &mut Stats, fails: &mut
                     if fl.range == range && fl.output == out.chars().take(600).collect::<String>() {
                         fl.nwidths += 1;
                         fl.wmax = fl.wmax.max(w);
+                        fl.widths.push(w);
                     }
                 }
             }
